@@ -34,7 +34,7 @@ BOUNDS = {
     "quick": "systems Q1,Q3,Q2,Q6,D2,2,2 (d=2,3,4,6,8); m in 2..5 (+ MProcess shape (2,2), (2,3)); all variable / stacked "
              "indices; SetQOperations: every ordered set of <= 4 operations of a 10-item alphabet on Q1, <= 3 on Q3 and Q2, "
              "<= 3 of a 10-item mixed-system alphabet; every total index; tomography classes on d=2,3,4,6",
-    "thorough": "quick systems + D3,3 (d=9) + D2,3,2 (d=12), m in 2..5 (+ shapes); all variable / stacked indices; "
+    "thorough": "quick systems + D3,3 (d=9) + D2,3,2 (d=12, MProcess only m in 2..3), m in 2..5 (+ shapes); all variable / stacked indices; "
                 "SetQOperations: <= 5 operations on Q1, <= 4 on Q3, Q2 and the mixed-system alphabet; every total index; "
                 "tomography classes on d=2,3,4,6,8,9",
 }
@@ -295,8 +295,10 @@ def config_list(tier):
             cfgs.append({"typ": "gate", "flag": flag, "m": 0, "sys": s, "shape": None})
             for m in (2, 3, 4, 5):
                 cfgs.append({"typ": "povm", "flag": flag, "m": m, "sys": s, "shape": None})
-                cfgs.append({"typ": "mprocess", "flag": flag, "m": m, "sys": s, "shape": None})
-            cfgs.append({"typ": "mprocess", "flag": flag, "m": 4, "sys": s, "shape": [2, 2]})
+                if m <= 3 or s != "D2,3,2":      # d=12: 20736 entries per HS matrix, m <= 3 keeps the tier in budget
+                    cfgs.append({"typ": "mprocess", "flag": flag, "m": m, "sys": s, "shape": None})
+            if s != "D2,3,2":
+                cfgs.append({"typ": "mprocess", "flag": flag, "m": 4, "sys": s, "shape": [2, 2]})
             if s in ("Q1", "Q3"):
                 cfgs.append({"typ": "mprocess", "flag": flag, "m": 6, "sys": s, "shape": [2, 3]})
     return cfgs
